@@ -433,6 +433,13 @@ pub struct RunSpec {
     /// untrusted input fails here although it would be a harmless lazy mapping on a big machine
     #[serde(default, skip_serializing_if = "Option::is_none")]
     pub vlimit_mb: Option<u64>,
+    /// leave out `-c <coin>` (only for bitcoin, the documented default)
+    #[serde(default, skip_serializing_if = "is_false")]
+    pub omit_coin: bool,
+    /// an extra path component above the data directory (".bitcoin", "testnet3", ".litecoin", …): where the
+    /// data lives says nothing about the coin
+    #[serde(default, skip_serializing_if = "Option::is_none")]
+    pub dir_alias: Option<String>,
 }
 fn yes() -> bool {
     true
@@ -457,6 +464,8 @@ impl RunSpec {
             path_style: 0,
             dump_in_data: false,
             vlimit_mb: None,
+            omit_coin: false,
+            dir_alias: None,
         }
     }
 }
